@@ -28,6 +28,14 @@ Definition L_CONNECTION := bytes_of_string "connection".
 Definition HTTP11 := bytes_of_string "HTTP/1.1".
 
 (* ---------------------------------------------------------------- proxy/common/utils.py *)
+(* _header_key(headers, name): the spelling under which name is already present, else name
+   (same definition as Http/Builders.v) *)
+Fixpoint header_key (headers : hdrs) (name : bytes) : bytes :=
+  match headers with
+  | [] => name
+  | (k, _) :: t => if bytes_eqb (lower k) (lower name) then k else header_key t name
+  end.
+
 (* build_http_header *)
 Definition build_http_header (k v : bytes) : bytes := k ++ [COLON] ++ [SP] ++ v.
 
@@ -36,7 +44,7 @@ Definition build_http_pkt (line : list bytes) (headers : option hdrs) (body : op
     (conn_close : bool) : bytes :=
   let pkt := join [SP] line ++ CRLF in
   let headers := hdrs_or_empty headers in
-  let headers := if conn_close then dict_set K_CONNECTION V_CLOSE headers else headers in
+  let headers := if conn_close then dict_set (header_key headers K_CONNECTION) V_CLOSE headers else headers in
   (* for k, v in headers.items(): pkt += build_http_header(k, v) + CRLF *)
   let pkt := fold_left (fun pkt kv => pkt ++ build_http_header (fst kv) (snd kv) ++ CRLF) headers pkt in
   let pkt := pkt ++ CRLF in
@@ -57,7 +65,7 @@ Definition build_http_response (a : bargs) : bytes :=
   let headers := hdrs_or_empty (a_headers a) in
   let headers :=
     if negb (has_te headers) && negb (a_no_cl a) then
-      dict_set K_CONTENT_LENGTH
+      dict_set (header_key headers K_CONTENT_LENGTH)
                (if truthy (a_body a) then dec_of_N (len (bytes_or_empty (a_body a))) else [48])
                headers
     else headers in
@@ -304,9 +312,11 @@ Definition wf_args (connect : bool) (a : bargs) : bool :=
   nodup_keys hs &&
   forallb (fun kv => is_token (fst kv) && forallb is_field_char (snd kv)) hs &&
   negb (has_te hs) &&
-  (* a caller-supplied Content-Length must be the key build_http_response overwrites *)
+  (* a caller-supplied Content-Length (in any spelling) must be the one key build_http_response
+     overwrites: at most one such key, and not together with no_cl *)
   forallb (fun kv => if bytes_eqb (lower (fst kv)) L_CONTENT_LENGTH
-                     then negb (a_no_cl a) && bytes_eqb (fst kv) K_CONTENT_LENGTH else true) hs &&
+                     then negb (a_no_cl a) && bytes_eqb (fst kv) (header_key hs K_CONTENT_LENGTH)
+                     else true) hs &&
   (* statuses that cannot carry a body are given none *)
   (if status_no_body connect (a_status a) then negb (truthy (a_body a)) else true) &&
   (* without Content-Length the body is close-delimited: the response must say so *)
@@ -317,10 +327,10 @@ Definition wf_args (connect : bool) (a : bargs) : bool :=
 Definition final_headers (a : bargs) : hdrs :=
   let hs := hdrs_or_empty (a_headers a) in
   let hs := if negb (has_te hs) && negb (a_no_cl a) then
-              dict_set K_CONTENT_LENGTH
+              dict_set (header_key hs K_CONTENT_LENGTH)
                 (if truthy (a_body a) then dec_of_N (len (bytes_or_empty (a_body a))) else [48]) hs
             else hs in
-  if a_conn_close a then dict_set K_CONNECTION V_CLOSE hs else hs.
+  if a_conn_close a then dict_set (header_key hs K_CONNECTION) V_CLOSE hs else hs.
 
 Definition intended_body (a : bargs) : bytes := if truthy (a_body a) then bytes_or_empty (a_body a) else [].
 
